@@ -259,6 +259,103 @@ def valence_guards(ck, fb, cls):
 
 
 # ------------------------------------------------------------------------------------------------ C16
+def orthogonal_table(ck, g, consts, cname, opp):
+    """the table form of orthogonal_orientation (if it is written as one): extracted entries and their algebraic laws"""
+    cyc = [2, 4, 3, 5]
+    p1, p2 = g.d["params"][0]["n"], g.d["params"][1]["n"]
+    table = {}
+    for b, i, x in g.tops():
+        if x.get("k") != "ret":
+            continue
+        rv = unwrap(strip_casts(x.get("x")))
+        if not (isinstance(rv, dict) and rv.get("n") in consts) or rv["n"] == "INVALID":
+            continue
+        a = b_ = None
+        for c, pol, e in g.facts(b):
+            p = cmp_parts(c)
+            if p and p[0] == "==" and pol is True:
+                l, r = unwrap(strip_casts(p[1])), unwrap(strip_casts(p[2]))
+                if isinstance(l, dict) and isinstance(r, dict) and r.get("n") in consts:
+                    if l.get("n") == p1:
+                        a = consts[r["n"]]
+                    if l.get("n") == p2:
+                        b_ = consts[r["n"]]
+        if a is None or b_ is None:
+            return False
+        table[(a, b_)] = consts[rv["n"]]
+    axis = lambda d: d // 2
+    bad = []
+    for a in range(6):
+        for b in range(6):
+            if axis(a) == axis(b):
+                if (a, b) in table:
+                    bad.append("defined for same-axis pair (%s,%s)" % (cname[a], cname[b]))
+                continue
+            if (a, b) not in table:
+                bad.append("undefined for (%s,%s)" % (cname[a], cname[b]))
+                continue
+            r = table[(a, b)]
+            if axis(r) in (axis(a), axis(b)):
+                bad.append("(%s,%s)->%s is not the third axis" % (cname[a], cname[b], cname[r]))
+            if table.get((b, a)) != opp(r):
+                bad.append("not antisymmetric at (%s,%s)" % (cname[a], cname[b]))
+            if table.get((opp(a), b)) != opp(r) or table.get((a, opp(b))) != opp(r):
+                bad.append("sign does not flip with an argument at (%s,%s)" % (cname[a], cname[b]))
+    for k in range(4):
+        a, b = cyc[k], cyc[(k + 1) % 4]
+        if table.get((a, b)) != consts["XF"]:
+            bad.append("handedness: (%s,%s) -> %s, expected XF" % (cname[a], cname[b], cname.get(table.get((a, b)))))
+    if not table:
+        return False
+    (ck.ok if (not bad and len(table) == 24) else lambda r, w, t: ck.violate(r, w, t, "C16.tables:orthogonal"))("C16.tables", g.where, "orthogonal_orientation: %d entries; %s" % (len(table), "all laws hold" if not bad else "; ".join(bad[:4])))
+    return True
+
+
+def orientation_witness(ck, fb, consts, g):
+    """compile-time witness generated from the CURRENT source text of opposite_orientation / orthogonal_orientation:
+    the two functions are re-declared constexpr in a scratch unit (together with the orientation constants read from the
+    fact base) and evaluated by the compiler for every argument; the expected values are the cross products of the axis
+    directions (x cross y = z) - independent of how the functions are written (table, formula, switch)"""
+    import os
+    import re
+    from .extract import BUILD
+    from .witness import function_text
+    ck.rule("C16.orient", "static_assert witness over the source of opposite_orientation / orthogonal_orientation (re-declared constexpr): opposite pairs XF<->XB, YF<->YB, ZF<->ZB; orthogonal_orientation(a, b) is the direction of a cross b for the 24 pairs on different axes and INVALID for same-axis pairs and INVALID arguments")
+    need = ["XF", "XB", "YF", "YB", "ZF", "ZB", "INVALID"]
+    if any(n not in consts for n in need):
+        raise AnalysisBroken("C16.orient: orientation constants missing: %s" % sorted(set(need) - set(consts)))
+    oo = [h for h in fb.by_cls.get(HEX, []) if h.name == "opposite_orientation" and h.has_cfg]
+    if not oo:
+        raise AnalysisBroken("anchor vanished: opposite_orientation")
+    parts = []
+    for h in (oo[0], g):
+        t = function_text(h.file, h.line, h.name)
+        head, body = t[:t.index("{")], t[t.index("{"):]
+        head = re.sub(r"\b(static|inline|constexpr)\b", "", head)
+        parts.append("static constexpr " + " ".join(head.split()) + " " + body)
+    vec = {"XF": (1, 0, 0), "XB": (-1, 0, 0), "YF": (0, 1, 0), "YB": (0, -1, 0), "ZF": (0, 0, 1), "ZB": (0, 0, -1)}
+    inv = {v: k for k, v in vec.items()}
+    cross = lambda a, b: (a[1] * b[2] - a[2] * b[1], a[2] * b[0] - a[0] * b[2], a[0] * b[1] - a[1] * b[0])
+    asserts = []
+    for a in need[:6]:
+        asserts.append('static_assert(w::opposite_orientation(w::%s) == w::%s, "opposite_orientation(%s) is %s");' % (a, inv[tuple(-c for c in vec[a])], a, inv[tuple(-c for c in vec[a])]))
+    for a in need:
+        for b in need:
+            if a == "INVALID" or b == "INVALID":
+                exp = "INVALID"
+            else:
+                c = cross(vec[a], vec[b])
+                exp = inv.get(c, "INVALID")
+            asserts.append('static_assert(w::orthogonal_orientation(w::%s, w::%s) == w::%s, "orthogonal_orientation(%s,%s) is %s");' % (a, b, exp, a, b, exp))
+    src = "// generated by ovmverif.c15_c16.orientation_witness from %s\nnamespace w {\n%s\n%s\n}\n%s\n" % (
+        g.file, "\n".join("static const unsigned char %s = %d;" % (n, consts[n]) for n in need), "\n".join(parts), "\n".join(asserts))
+    d = os.path.join(BUILD, "witness_gen")
+    os.makedirs(d, exist_ok=True)
+    path = os.path.join(d, "c16_orientation.cc")
+    open(path, "w").write(src)
+    compile_witness(ck, "C16.orient", path)
+
+
 def run_c16(ck, fb, fbd):
     ck.rule("C16.layout", "add_cell(8 vertices): the six vertex quadruples form a closed oriented cube surface (24 directed edges, each once, each reverse once; 8 vertices of degree 3), quadruples 2k and 2k+1 are disjoint, walking the first quadruple's edges meets quadruples 2,4,3,5 in cyclic order, the looked-up quadruples equal the created ones, lookups use find_halfface_extensive, and the halffaces are stored in that order")
     f = [g for g in fb.by_cls.get(HEX, []) if g.name == "add_cell" and g.has_cfg and len(g.d["params"]) == 2 and "VH" in g.d["params"][0]["t"]]
@@ -362,50 +459,9 @@ def run_c16(ck, fb, fbd):
     if not g:
         raise AnalysisBroken("anchor vanished: orthogonal_orientation")
     g = g[0]
-    p1, p2 = g.d["params"][0]["n"], g.d["params"][1]["n"]
-    table = {}
-    for b, i, x in g.tops():
-        if x.get("k") != "ret":
-            continue
-        rv = unwrap(strip_casts(x.get("x")))
-        if not (isinstance(rv, dict) and rv.get("n") in consts) or rv["n"] == "INVALID":
-            continue
-        a = b_ = None
-        for c, pol, e in g.facts(b):
-            p = cmp_parts(c)
-            if p and p[0] == "==" and pol is True:
-                l, r = unwrap(strip_casts(p[1])), unwrap(strip_casts(p[2]))
-                if isinstance(l, dict) and isinstance(r, dict) and r.get("n") in consts:
-                    if l.get("n") == p1:
-                        a = consts[r["n"]]
-                    if l.get("n") == p2:
-                        b_ = consts[r["n"]]
-        if a is None or b_ is None:
-            raise AnalysisBroken("C16: orthogonal_orientation: return at line %s not guarded by (_o1 == X && _o2 == Y)" % x.get("ln"))
-        table[(a, b_)] = consts[rv["n"]]
-    axis = lambda d: d // 2
-    bad = []
-    for a in range(6):
-        for b in range(6):
-            if axis(a) == axis(b):
-                if (a, b) in table:
-                    bad.append("defined for same-axis pair (%s,%s)" % (cname[a], cname[b]))
-                continue
-            if (a, b) not in table:
-                bad.append("undefined for (%s,%s)" % (cname[a], cname[b]))
-                continue
-            r = table[(a, b)]
-            if axis(r) in (axis(a), axis(b)):
-                bad.append("(%s,%s)->%s is not the third axis" % (cname[a], cname[b], cname[r]))
-            if table.get((b, a)) != opp(r):
-                bad.append("not antisymmetric at (%s,%s)" % (cname[a], cname[b]))
-            if table.get((opp(a), b)) != opp(r) or table.get((a, opp(b))) != opp(r):
-                bad.append("sign does not flip with an argument at (%s,%s)" % (cname[a], cname[b]))
-    for k in range(4):
-        a, b = cyc[k], cyc[(k + 1) % 4]
-        if table.get((a, b)) != consts["XF"]:
-            bad.append("handedness: (%s,%s) -> %s, expected XF" % (cname[a], cname[b], cname.get(table.get((a, b)))))
-    (ck.ok if (not bad and len(table) == 24) else lambda r, w, t: ck.violate(r, w, t, "C16.tables:orthogonal"))("C16.tables", g.where, "orthogonal_orientation: %d entries; %s" % (len(table), "all laws hold" if not bad else "; ".join(bad[:4])))
+    orientation_witness(ck, fb, consts, g)
+    if not orthogonal_table(ck, g, consts, cname, opp):
+        ck.note("orthogonal_orientation is not written as a table of (_o1 == A && _o2 == B) returns: the table laws are not evaluated, the compile-time witness C16.orient decides the function for all 49 argument pairs")
     # order tables
     arrays = {}
     for h in [x for x in fb.by_cls.get(HEX, []) if x.has_cfg and x.name == "add_cell" and "HFH" in x.d["params"][0]["t"]]:
